@@ -4,7 +4,8 @@ Remove phasing information from a VCF file
 This script removes all types of phasing information from the input VCF and
 prints out the modified VCF to standard output. The modifications are:
 
-- The HP, PS and PQ tags are removed
+- The HP, PS and PQ tags are removed, and so is the HS tag (haploid phase sets
+  written by whatshap polyphase --include-haploid-sets)
 - Phasing in the GT tag (using pipe notation) is removed. The genotypes are
   sorted in ascending order. For example, a GT value of '1|0' is converted
   to '0/1'.
@@ -19,7 +20,7 @@ from pysam import VariantFile
 
 logger = logging.getLogger(__name__)
 
-TAGS_TO_REMOVE = frozenset(("HP", "PQ", "PS"))
+TAGS_TO_REMOVE = frozenset(("HP", "PQ", "PS", "HS"))
 
 
 def add_arguments(parser):
